@@ -698,3 +698,66 @@ pub fn many_locals(rng: &mut Rng) -> String {
     }
     o
 }
+
+/// Recursive components whose capture effects must travel several hops AGAINST definition order
+/// before the summaries are right (seed C03-c2: a fixpoint that stops as soon as the last merge of
+/// the last member adds nothing): 3–7 mutually recursive functions on a ring with extra chords and
+/// back edges, only one or two of which read or write a captured variable, and stores to that
+/// variable placed directly before calls into arbitrary members — every such store is live exactly
+/// when the called member reaches a reader.
+pub fn scc_capture(rng: &mut Rng) -> String {
+    let k = 3 + rng.below(5) as usize;
+    let tag = rng.below(90) + 10;
+    let f = |i: usize| format!("r{tag}_{i}");
+    let var = *rng.pick(&["mode", "state", "acc"]);
+    let readers: Vec<usize> = (0..1 + rng.below(2)).map(|_| rng.below(k as u64) as usize).collect();
+    let writer = if rng.chance(1, 3) { Some(rng.below(k as u64) as usize) } else { None };
+    let backward = rng.chance(1, 2);
+    let mut o = format!("make {var} get \"old\"\n");
+    // optionally the whole component lives inside a function that owns the variable
+    let nested = rng.chance(1, 3);
+    if nested {
+        o = format!("do outer{tag}(seed) start\nmake {var} get \"old\"\n");
+    }
+    for i in 0..k {
+        let next = if backward { (i + k - 1) % k } else { (i + 1) % k };
+        let mut body = String::new();
+        if readers.contains(&i) {
+            body.push_str(&format!("shout({var})\n"));
+        }
+        if writer == Some(i) {
+            body.push_str(&format!("if to say (n na 2) start {var} get \"w{i}\" end\n"));
+        }
+        body.push_str("if to say (n small pass 1) start return 0 end\n");
+        let mut calls = vec![format!("{}(n minus 1)", f(next))];
+        for _ in 0..rng.below(3) {
+            // chords and back edges; `(0)` calls end at once but still count for the call graph
+            let j = rng.below(k as u64) as usize;
+            calls.push(if rng.chance(1, 2) { format!("{}(0)", f(j)) } else { format!("{}(n minus 2)", f(j)) });
+        }
+        body.push_str(&format!("return {} add 1\n", calls.join(" add ")));
+        o.push_str(&format!("do {}(n) start\n{body}end\n", f(i)));
+    }
+    let rounds = 2 + rng.below(3);
+    for r in 0..rounds {
+        let target = rng.below(k as u64) as usize;
+        let depth = 1 + rng.below(k as u64 + 2);
+        o.push_str(&format!("{var} get \"v{r}\"\n"));
+        match rng.below(4) {
+            0 => o.push_str(&format!("{}({depth})\n", f(target))),
+            1 => o.push_str(&format!("make t{r} get {}({depth})\n", f(target))),
+            2 => o.push_str(&format!("shout({}({depth}))\n", f(target))),
+            _ => o.push_str(&format!("if to say ({}({depth}) pass 0) start shout(\"p{r}\") end\n", f(target))),
+        }
+    }
+    if rng.chance(1, 2) {
+        o.push_str(&format!("{var} get \"last\"\n"));
+    }
+    if rng.chance(2, 3) {
+        o.push_str(&format!("shout({var})\n"));
+    }
+    if nested {
+        o.push_str(&format!("return 0\nend\nshout(outer{tag}(1))\n"));
+    }
+    o
+}
